@@ -176,9 +176,9 @@ pub fn burst_jobs(thorough: bool, kinds: &[i64]) -> Vec<Job> {
     let mut v = vec![];
     let n = if thorough { 64 } else { 40 };
     for &k in kinds {
-        if k == 1 {
-            v.push(job(Cfg::new("burst", &[("kind", 1), ("fair", 1), ("n", n)]), false, thorough));
-            v.push(job(Cfg::new("burst", &[("kind", 1), ("fair", 0), ("n", n)]), false, thorough));
+        if k == 1 || k == 8 {
+            v.push(job(Cfg::new("burst", &[("kind", k), ("fair", 1), ("n", n)]), false, thorough));
+            v.push(job(Cfg::new("burst", &[("kind", k), ("fair", 0), ("n", n)]), false, thorough));
         } else {
             v.push(job(Cfg::new("burst", &[("kind", k), ("n", n)]), false, thorough));
         }
@@ -258,7 +258,7 @@ pub fn miri_jobs(prop: &str) -> Vec<Job> {
 
 pub fn all_jobs(thorough: bool) -> Vec<Job> {
     let mut v = vec![];
-    v.extend(burst_jobs(thorough, &[0, 1, 2, 3, 4, 5, 6, 7]));
+    v.extend(burst_jobs(thorough, &[0, 1, 2, 3, 4, 5, 6, 7, 8]));
     v.extend(wide_jobs(thorough));
     v.extend(mutex_jobs(thorough, false));
     v.extend(sem_jobs(thorough, false));
@@ -313,7 +313,12 @@ pub fn plan(prop: &str, tier: &str) -> Vec<Job> {
             v
         }
         "C02" => mutex_jobs(t, false),
-        "C03" | "C04" => mutex_jobs(t, true),
+        "C03" => {
+            let mut v = mutex_jobs(t, true);
+            v.extend(burst_jobs(t, &[8]));
+            v
+        }
+        "C04" => mutex_jobs(t, true),
         "C05" | "C07" => sem_jobs(t, false),
         "C06" => {
             let mut v = sem_jobs(t, true);
